@@ -502,6 +502,13 @@ def biv_extra(ctx, which):
         biv_layouts(ctx, which)
     if which == 'C09':
         biv_sample_rosenblatt(ctx)
+    # round 6: ambient conditions, failure paths of the queries, ownership of returned arrays
+    from . import extra_oracles3 as E3
+    E3.biv_ambient(ctx, meths)
+    E3.biv_failed_query(ctx, meths)
+    E3.biv_results_owned(ctx, meths)
+    if which == 'C09':
+        E3.biv_refused_refit(ctx)
 
 
 def biv_sample_rosenblatt_replay(fam, th, variant='mixed'):
